@@ -191,6 +191,14 @@ Section Main.
     destruct (closed_reach R C w o Hr (W w Hw)) as [A|A]; [exact A | contradiction].
   Qed.
 
+  (* what is not selected and reachable from the wants is reachable from the haves *)
+  Lemma covers : forall R, objects st sh wants haves = Ok R ->
+    forall o, reach_set st sh wants o -> In o R \/ reach_set st sh haves o.
+  Proof.
+    intros R H o (w & Hw & Hr). destruct (objects_ok R H) as [C W _ _].
+    exact (closed_reach R C w o Hr (W w Hw)).
+  Qed.
+
   Lemma only_wanted : forall R, objects st sh wants haves = Ok R ->
     forall o, In o R -> reach_set st sh wants o.
   Proof. intros R H o Ho. now apply (ro_wanted R (objects_ok R H)). Qed.
